@@ -864,11 +864,13 @@ pub fn run_selections(data: &Value) -> Vec<Line> {
         let mut out = vec![format!("{}", verif::binom(n, k))];
         let mut it = items[..].iter_selections(k);
         out.push(format!("{}", it.size_hint().0));
+        let mut hints: Vec<(usize, Option<usize>)> = vec![it.size_hint()];
         let mut all: Vec<Vec<usize>> = vec![];
         while let Some(sel) = it.next() {
             let sel: Vec<usize> = sel.into_iter().copied().collect();
             let hint = it.size_hint();
             assert_eq!(Some(hint.0), hint.1);
+            hints.push(hint);
             out.push(format!("{}/{}", sel.iter().map(|x| x.to_string()).collect::<Vec<_>>().join(","), hint.0));
             all.push(sel);
         }
@@ -878,12 +880,12 @@ pub fn run_selections(data: &Value) -> Vec<Line> {
             past_ok &= it.next().is_none();
             past_ok &= k == 0 || it.size_hint() == (0, Some(0));
         }
-        (out.join(";"), all, past_ok)
+        (out.join(";"), all, past_ok, hints)
     });
     let mut lines = vec![];
     match res {
         Err(e) => lines.push(Line::direct(&["C20"], false, format!("iterator panicked for n={} k={}: {}", n, k, e))),
-        Ok((text, all, past_ok)) => {
+        Ok((text, all, past_ok, hints)) => {
             lines.push(Line::direct(&["C20"], past_ok, format!("n={} k={}: after the last selection the enumeration stays exhausted (next() = None, size hint 0) when polled again", n, k)).trivial(k == 0 || k > n));
             // k = 0: the hint of the empty enumeration is not part of the claim
             let (payload, expect) = (format!("{} {}", n, k), text);
@@ -907,6 +909,11 @@ pub fn run_selections(data: &Value) -> Vec<Line> {
             let mut set = std::collections::HashSet::new();
             let good = all.iter().all(|s| s.len() == k && s.windows(2).all(|w| w[0] < w[1]) && s.iter().all(|x| *x < n) && set.insert(s.clone()));
             let cnt_ok = if k == 0 { all.is_empty() } else { all.len() == expected };
+            // the size report at every point of the enumeration (before the first step too) is exactly what is left
+            if k >= 1 && k <= n {
+                let bad = hints.iter().enumerate().find(|(j, h)| expected < *j || **h != (expected - *j, Some(expected - *j)));
+                lines.push(Line::direct(&["C20"], bad.is_none(), format!("n={} k={}: size report after j selections is exactly C(n,k) - j = {} - j for every j in 0..={} (first deviation: {:?})", n, k, expected, all.len(), bad)));
+            }
             lines.push(Line::direct(&["C20"], good && cnt_ok && verif::binom(n, k) == expected,
                 format!("n={} k={}: {} selections (expected {}), all distinct increasing: {}, binom={}", n, k, all.len(), expected, good, verif::binom(n, k))).trivial(k == 0 || k > n));
         }
